@@ -274,11 +274,15 @@ theorem inv_cancelCtx (cfg : Cfg) (s s' : St) (c : Nat) (hI : Inv cfg s) (hs : c
   simp only [bkey] at hh
   simp only [cancelCtx] at hs
   split at hs
-  · rename_i v w hbk
-    cases hs
+  · cases hs
     refine ⟨?_, ?_, ?_, ?_, ?_, ?_, ?_, ?_, ?_, ?_, ?_, ?_⟩ <;> simp only [bkey] <;> intros
     all_goals grind [upd]
-  · cases hs
+  · split at hs
+    · rename_i v w hbk
+      cases hs
+      refine ⟨?_, ?_, ?_, ?_, ?_, ?_, ?_, ?_, ?_, ?_, ?_, ?_⟩ <;> simp only [bkey] <;> intros
+      all_goals grind [upd]
+    · cases hs
 
 theorem inv_cancelMM (cfg : Cfg) (s s' : St) (i : Nat) (hI : Inv cfg s) (hs : cancelMM s i = some s') : Inv cfg s' := by
   simp only [cancelMM] at hs
@@ -705,61 +709,6 @@ theorem mock_dispatch (cfg : Cfg) (hk : cfg.keyByVar = true) (s s' : St) (b v : 
 theorem upd_upd {α : Type} (f : Nat → α) (i : Nat) (x : α) : upd (upd f i x) i x = upd f i x := by
   funext j; by_cases h : j = i <;> simp [upd, h]
 
-theorem cancelMM_single (s s' : St) (i c v : Nat) (w : Words) (hc : (s.mms i).ctx = c)
-    (hb : (s.ctxs c).backup = some (v, w)) (hs : cancelMM s i = some s') :
-    (s'.ctxs c).backup = some (v, w) ∧ (∀ i', (s'.mms i').ctx = (s.mms i').ctx ∧ (s'.mms i').hasGuard = (s.mms i').hasGuard)
-    ∧ s'.vars = (if (s.mms i).hasGuard then upd s.vars v w else s.vars)
-    ∧ ((s.mms i).hasGuard = true → (s'.ctxs c).canceled = true) ∧ ((s.ctxs c).canceled = true → (s'.ctxs c).canceled = true) := by
-  simp only [cancelMM, cancelCtx, hc, hb] at hs
-  by_cases hg : (s.mms i).hasGuard = true
-  · simp only [hg, if_true, Option.map_some, Option.some.injEq] at hs
-    subst hs
-    refine ⟨by simp, ?_, by simp [hg], by simp, by simp⟩
-    intro i'
-    by_cases e : i' = i
-    · subst e; simp [hc, hg]
-    · simp [upd_other _ _ _ _ e]
-  · simp only [hg, Bool.false_eq_true, if_false, Option.map_some, Option.some.injEq] at hs
-    subst hs
-    refine ⟨hb, ?_, by simp [hg], by intro h; exact absurd h hg, fun h => h⟩
-    intro i'
-    by_cases e : i' = i
-    · subst e; simp [hc]; simpa using hg
-    · simp [upd_other _ _ _ _ e]
-
-theorem cancelMMs_single (c v : Nat) (w : Words) (l : List Nat) : ∀ (s s' : St), (∀ i ∈ l, (s.mms i).ctx = c) →
-    (s.ctxs c).backup = some (v, w) → cancelMMs s l = some s' →
-    s'.vars = (if l.any (fun i => (s.mms i).hasGuard) then upd s.vars v w else s.vars)
-    ∧ (l.any (fun i => (s.mms i).hasGuard) = true → (s'.ctxs c).canceled = true)
-    ∧ ((s.ctxs c).canceled = true → (s'.ctxs c).canceled = true) := by
-  induction l with
-  | nil => intro s s' _ _ hs; simp only [cancelMMs, Option.some.injEq] at hs; subst hs; simp
-  | cons i r ih =>
-    intro s s' hc hb hs
-    simp only [cancelMMs] at hs
-    cases hq : cancelMM s i with
-    | none => simp [hq] at hs
-    | some s1 =>
-      simp only [hq, Option.bind_some] at hs
-      obtain ⟨h1, h2, h3, h4, h5⟩ := cancelMM_single s s1 i c v w (hc i List.mem_cons_self) hb hq
-      have hc1 : ∀ i' ∈ r, (s1.mms i').ctx = c := fun i' hi' => by rw [(h2 i').1]; exact hc i' (List.mem_cons_of_mem _ hi')
-      obtain ⟨g1, g2, g3⟩ := ih s1 s' hc1 h1 hs
-      have hany : r.any (fun i => (s1.mms i).hasGuard) = r.any (fun i => (s.mms i).hasGuard) := by
-        congr 1; funext i'; exact (h2 i').2
-      rw [hany] at g1 g2
-      simp only [List.any_cons]
-      by_cases hg : (s.mms i).hasGuard = true
-      · simp only [hg, if_true, Bool.true_or] at h3 ⊢
-        refine ⟨?_, fun _ => g3 (h4 hg), fun hx => g3 (h5 hx)⟩
-        rw [g1, h3]
-        split
-        · exact upd_upd _ _ _
-        · rfl
-      · have hg' : (s.mms i).hasGuard = false := by simpa using hg
-        simp only [hg', Bool.false_eq_true, if_false, Bool.false_or] at h3 ⊢
-        rw [h3] at g1
-        exact ⟨g1, g2, fun hx => g3 (h5 hx)⟩
-
 theorem mem_insertKV {κ : Type} [DecidableEq κ] (k : κ) (v : Nat) (l : List (κ × Nat)) (p : κ × Nat) :
     p ∈ insertKV k v l ↔ p = (k, v) ∨ (p ∈ l ∧ p.1 ≠ k) := by
   simp [insertKV, List.mem_filter]
@@ -854,7 +803,11 @@ theorem inv2_cancelCtx (cfg : Cfg) (s s' : St) (c : Nat) (h : Inv2 cfg s) (hs : 
   · cases hs
     refine ⟨?_, ?_, ?_, ?_, ?_⟩ <;> simp only [] <;> intros
     all_goals grind [upd]
-  · cases hs
+  · split at hs
+    · cases hs
+      refine ⟨?_, ?_, ?_, ?_, ?_⟩ <;> simp only [] <;> intros
+      all_goals grind [upd]
+    · cases hs
 
 /-- changing fields other than `ctx` / `hasGuard` of a method mocker -/
 theorem inv2_mmfields (cfg : Cfg) (s : St) (i : Nat) (mm' : MM) (h : Inv2 cfg s) (hc : mm'.ctx = (s.mms i).ctx)
@@ -876,7 +829,9 @@ theorem inv2_cancelMM (cfg : Cfg) (s s' : St) (i : Nat) (h : Inv2 cfg s) (hs : c
         simp only [cancelCtx] at hq
         split at hq
         · cases hq; rfl
-        · cases hq
+        · split at hq
+          · cases hq; rfl
+          · cases hq
       exact inv2_mmfields cfg s1 i _ h1 (by rw [e]) (by rw [e])
   · simp only [Option.map_some, Option.some.injEq] at hs
     subst hs
@@ -1030,126 +985,182 @@ theorem cancelMM_gen (s s' : St) (i : Nat) (hs : cancelMM s i = some s') :
     (∀ c, (s'.ctxs c).backup = (s.ctxs c).backup)
     ∧ (∀ i', (s'.mms i').ctx = (s.mms i').ctx ∧ (s'.mms i').hasGuard = (s.mms i').hasGuard)
     ∧ (∀ c, (s.ctxs c).canceled = true → (s'.ctxs c).canceled = true)
-    ∧ ((s.mms i).hasGuard = false → s'.vars = s.vars)
-    ∧ ((s.mms i).hasGuard = true → ∃ v w, (s.ctxs (s.mms i).ctx).backup = some (v, w) ∧ s'.vars = upd s.vars v w
-          ∧ (s'.ctxs (s.mms i).ctx).canceled = true) := by
+    ∧ (∀ c, (s'.ctxs c).restored = ((s.ctxs c).restored || (decide (c = (s.mms i).ctx) && (s.mms i).hasGuard)))
+    ∧ s'.blds = s.blds ∧ s'.cms = s.cms
+    ∧ (((s.mms i).hasGuard = false ∨ (s.ctxs (s.mms i).ctx).restored = true) → s'.vars = s.vars)
+    ∧ ((s.mms i).hasGuard = true → (s'.ctxs (s.mms i).ctx).canceled = true)
+    ∧ ((s.mms i).hasGuard = true → (s.ctxs (s.mms i).ctx).restored = false →
+        ∃ v w, (s.ctxs (s.mms i).ctx).backup = some (v, w) ∧ s'.vars = upd s.vars v w) := by
   simp only [cancelMM, cancelCtx] at hs
+  have hmm : ∀ (f : Nat → MM) (i' : Nat), f = s.mms →
+      (upd f i { s.mms i with when_ := none, canceled := true } i').ctx = (s.mms i').ctx
+      ∧ (upd f i { s.mms i with when_ := none, canceled := true } i').hasGuard = (s.mms i').hasGuard := by
+    intro f i' e
+    by_cases h : i' = i
+    · subst h; simp
+    · rw [upd_other _ _ _ _ h, e]; exact ⟨rfl, rfl⟩
   by_cases hg : (s.mms i).hasGuard = true
-  · simp only [hg, if_true] at hs
-    cases hb : (s.ctxs (s.mms i).ctx).backup with
-    | none => simp [hb] at hs
-    | some bk =>
-      obtain ⟨v, w⟩ := bk
-      simp only [hb, Option.map_some, Option.some.injEq] at hs
+  · rw [if_pos hg] at hs
+    by_cases hr : (s.ctxs (s.mms i).ctx).restored = true
+    · rw [if_pos hr] at hs
+      simp only [Option.map_some, Option.some.injEq] at hs
       subst hs
-      refine ⟨?_, ?_, ?_, ?_, ?_⟩
+      refine ⟨?_, fun i' => hmm _ i' rfl, ?_, ?_, rfl, rfl, fun _ => rfl, fun _ => by simp, fun _ h => by rw [hr] at h; cases h⟩
       · intro c
         by_cases h : c = (s.mms i).ctx
-        · subst h; simp [hb]
-        · simp [upd_other _ _ _ _ h]
-      · intro i'
-        by_cases h : i' = i
-        · subst h; simp [hg]
+        · subst h; simp
         · simp [upd_other _ _ _ _ h]
       · intro c hc
         by_cases h : c = (s.mms i).ctx
         · subst h; simp
         · simp [upd_other _ _ _ _ h, hc]
-      · intro h; rw [hg] at h; cases h
-      · intro _; exact ⟨v, w, rfl, rfl, by simp⟩
+      · intro c
+        by_cases h : c = (s.mms i).ctx
+        · subst h; simp [hr]
+        · simp [upd_other _ _ _ _ h, h]
+    · have hr' : (s.ctxs (s.mms i).ctx).restored = false := by simpa using hr
+      rw [if_neg hr] at hs
+      cases hb : (s.ctxs (s.mms i).ctx).backup with
+      | none => simp [hb] at hs
+      | some bk =>
+        obtain ⟨v, w⟩ := bk
+        simp only [hb, Option.map_some, Option.some.injEq] at hs
+        subst hs
+        refine ⟨?_, fun i' => hmm _ i' rfl, ?_, ?_, rfl, rfl, ?_, fun _ => by simp, fun _ _ => ⟨v, w, rfl, rfl⟩⟩
+        · intro c
+          by_cases h : c = (s.mms i).ctx
+          · subst h; simp [hb]
+          · simp [upd_other _ _ _ _ h]
+        · intro c hc
+          by_cases h : c = (s.mms i).ctx
+          · subst h; simp
+          · simp [upd_other _ _ _ _ h, hc]
+        · intro c
+          by_cases h : c = (s.mms i).ctx
+          · subst h; simp [hg]
+          · simp [upd_other _ _ _ _ h, h]
+        · intro h
+          rcases h with h | h
+          · rw [hg] at h; cases h
+          · rw [hr'] at h; cases h
   · have hg' : (s.mms i).hasGuard = false := by simpa using hg
-    simp only [hg', Bool.false_eq_true, if_false, Option.map_some, Option.some.injEq] at hs
+    rw [if_neg hg] at hs
+    simp only [Option.map_some, Option.some.injEq] at hs
     subst hs
-    refine ⟨fun _ => rfl, ?_, fun _ h => h, fun _ => rfl, fun h => by rw [hg'] at h; cases h⟩
-    intro i'
-    by_cases h : i' = i
-    · subst h; simp [hg']
-    · simp [upd_other _ _ _ _ h]
+    refine ⟨fun _ => rfl, fun i' => hmm _ i' rfl, fun _ h => h, ?_, rfl, rfl, fun _ => rfl, ?_, ?_⟩
+    · intro c; simp [hg']
+    · intro h; rw [hg'] at h; cases h
+    · intro h; rw [hg'] at h; cases h
 
 theorem cancelMM_total (s : St) (i : Nat) (h : (s.mms i).hasGuard = true → ∃ x, (s.ctxs (s.mms i).ctx).backup = some x) :
     ∃ s', cancelMM s i = some s' := by
   simp only [cancelMM, cancelCtx]
   by_cases hg : (s.mms i).hasGuard = true
   · obtain ⟨⟨v, w⟩, hx⟩ := h hg
-    simp [hg, hx]
+    by_cases hr : (s.ctxs (s.mms i).ctx).restored = true
+    · simp [hg, hr]
+    · simp [hg, hr, hx]
   · simp [hg]
 
-/-- guarded member of `l` whose context saved variable `u` -/
+/-- guarded member of `l` whose context saved variable `u` (holding `w`) and has not put it back yet -/
 def Binds (s : St) (l : List Nat) (u : Nat) (w : Words) : Prop :=
-  ∃ i ∈ l, (s.mms i).hasGuard = true ∧ (s.ctxs (s.mms i).ctx).backup = some (u, w)
+  ∃ i ∈ l, (s.mms i).hasGuard = true ∧ (s.ctxs (s.mms i).ctx).restored = false
+    ∧ (s.ctxs (s.mms i).ctx).backup = some (u, w)
 
 /-- `Builder.Reset` over any list of method mockers, in any order: it cannot fail when every guard has a backup; a variable
-    no guarded member saved is unchanged; a variable saved by guarded members that agree on the saved words holds them;
-    the context of every guarded member is canceled. -/
+    no guarded, not-yet-restored member saved is unchanged (in particular a second Reset changes nothing); a variable saved
+    by such members that agree on the saved words holds them; every guarded member's context is canceled and restored. -/
 theorem cancelMMs_gen (l : List Nat) : ∀ (s : St),
     (∀ i ∈ l, (s.mms i).hasGuard = true → ∃ x, (s.ctxs (s.mms i).ctx).backup = some x) →
     ∃ s', cancelMMs s l = some s'
       ∧ (∀ c, (s'.ctxs c).backup = (s.ctxs c).backup)
       ∧ (∀ i', (s'.mms i').ctx = (s.mms i').ctx ∧ (s'.mms i').hasGuard = (s.mms i').hasGuard)
       ∧ (∀ c, (s.ctxs c).canceled = true → (s'.ctxs c).canceled = true)
+      ∧ (∀ c, (s.ctxs c).restored = true → (s'.ctxs c).restored = true)
+      ∧ s'.blds = s.blds ∧ s'.cms = s.cms
       ∧ (∀ u, (¬ ∃ w, Binds s l u w) → s'.vars u = s.vars u)
       ∧ (∀ u w, Binds s l u w → (∀ w', Binds s l u w' → w' = w) → s'.vars u = w)
-      ∧ (∀ i ∈ l, (s.mms i).hasGuard = true → (s'.ctxs (s.mms i).ctx).canceled = true) := by
+      ∧ (∀ i ∈ l, (s.mms i).hasGuard = true → (s'.ctxs (s.mms i).ctx).canceled = true ∧ (s'.ctxs (s.mms i).ctx).restored = true) := by
   induction l with
   | nil =>
     intro s _
-    refine ⟨s, rfl, fun _ => rfl, fun _ => ⟨rfl, rfl⟩, fun _ h => h, fun _ _ => rfl, ?_, ?_⟩
+    refine ⟨s, rfl, fun _ => rfl, fun _ => ⟨rfl, rfl⟩, fun _ h => h, fun _ h => h, rfl, rfl, fun _ _ => rfl, ?_, ?_⟩
     · intro u w ⟨i, hi, _⟩; cases hi
     · intro i hi; cases hi
   | cons i0 r ih =>
     intro s hG
     obtain ⟨s1, h1⟩ := cancelMM_total s i0 (hG i0 List.mem_cons_self)
-    obtain ⟨a1, a2, a3, a4, a5⟩ := cancelMM_gen s s1 i0 h1
+    obtain ⟨a1, a2, a3, aR, aB, aC, a4, a5, a6⟩ := cancelMM_gen s s1 i0 h1
     have hG1 : ∀ i ∈ r, (s1.mms i).hasGuard = true → ∃ x, (s1.ctxs (s1.mms i).ctx).backup = some x := by
       intro i hi hg
       rw [(a2 i).2] at hg
       rw [(a2 i).1, a1]
       exact hG i (List.mem_cons_of_mem _ hi) hg
-    obtain ⟨s', b0, b1, b2, b3, b4, b5, b6⟩ := ih s1 hG1
-    have bindsEq : ∀ u w, Binds s1 r u w ↔ Binds s r u w := by
-      intro u w
-      constructor
-      · rintro ⟨i, hi, hg, hb⟩
-        exact ⟨i, hi, by rw [← (a2 i).2]; exact hg, by rw [← (a2 i).1, ← a1]; exact hb⟩
-      · rintro ⟨i, hi, hg, hb⟩
-        exact ⟨i, hi, by rw [(a2 i).2]; exact hg, by rw [(a2 i).1, a1]; exact hb⟩
-    have sub : ∀ u w, Binds s r u w → Binds s (i0 :: r) u w := fun u w ⟨i, hi, hg, hb⟩ => ⟨i, List.mem_cons_of_mem _ hi, hg, hb⟩
-    refine ⟨s', by simp [cancelMMs, h1, b0], fun c => by rw [b1, a1], fun i' => ⟨by rw [(b2 i').1, (a2 i').1], by rw [(b2 i').2, (a2 i').2]⟩,
-      fun c hc => b3 c (a3 c hc), ?_, ?_, ?_⟩
+    obtain ⟨s', b0, b1, b2, b3, bR, bB, bC, b4, b5, b6⟩ := ih s1 hG1
+    have rmono : ∀ c, (s.ctxs c).restored = true → (s1.ctxs c).restored = true := by
+      intro c h; rw [aR c, h]; rfl
+    -- a member that binds after the head step bound before it
+    have bindsBack : ∀ u w, Binds s1 r u w → Binds s r u w := by
+      rintro u w ⟨i, hi, hg, hrs, hb⟩
+      refine ⟨i, hi, by rw [← (a2 i).2]; exact hg, ?_, by rw [← (a2 i).1, ← a1]; exact hb⟩
+      rw [(a2 i).1] at hrs
+      cases hq : (s.ctxs (s.mms i).ctx).restored with
+      | false => rfl
+      | true => rw [rmono _ hq] at hrs; cases hrs
+    have sub : ∀ u w, Binds s r u w → Binds s (i0 :: r) u w :=
+      fun u w ⟨i, hi, h⟩ => ⟨i, List.mem_cons_of_mem _ hi, h⟩
+    refine ⟨s', by simp [cancelMMs, h1, b0], fun c => by rw [b1, a1],
+      fun i' => ⟨by rw [(b2 i').1, (a2 i').1], by rw [(b2 i').2, (a2 i').2]⟩,
+      fun c hc => b3 c (a3 c hc), fun c hc => bR c (rmono c hc), by rw [bB, aB], by rw [bC, aC], ?_, ?_, ?_⟩
     · -- unbound variables
       intro u hu
-      have hr : ¬ ∃ w, Binds s1 r u w := fun ⟨w, hw⟩ => hu ⟨w, sub u w ((bindsEq u w).mp hw)⟩
+      have hr : ¬ ∃ w, Binds s1 r u w := fun ⟨w, hw⟩ => hu ⟨w, sub u w (bindsBack u w hw)⟩
       rw [b4 u hr]
       by_cases hg : (s.mms i0).hasGuard = true
-      · obtain ⟨v, w, hb, hv, _⟩ := a5 hg
-        rw [hv]
-        have : u ≠ v := by
-          intro e; subst e
-          exact hu ⟨w, i0, List.mem_cons_self, hg, hb⟩
-        exact upd_other _ _ _ _ this
-      · rw [a4 (by simpa using hg)]
+      · cases hq : (s.ctxs (s.mms i0).ctx).restored with
+        | true => rw [a4 (Or.inr hq)]
+        | false =>
+          obtain ⟨v, w, hb, hv⟩ := a6 hg hq
+          rw [hv]
+          have : u ≠ v := by
+            intro e; subst e
+            exact hu ⟨w, i0, List.mem_cons_self, hg, hq, hb⟩
+          exact upd_other _ _ _ _ this
+      · rw [a4 (Or.inl (by simpa using hg))]
     · -- bound variables
       intro u w hb huniq
       by_cases hr : ∃ w', Binds s1 r u w'
       · obtain ⟨w', hw'⟩ := hr
-        have e : w' = w := huniq w' (sub u w' ((bindsEq u w').mp hw'))
+        have e : w' = w := huniq w' (sub u w' (bindsBack u w' hw'))
         subst e
-        exact b5 u w' hw' (fun w'' h'' => huniq w'' (sub u w'' ((bindsEq u w'').mp h'')))
+        exact b5 u w' hw' (fun w'' h'' => huniq w'' (sub u w'' (bindsBack u w'' h'')))
       · rw [b4 u hr]
-        obtain ⟨i, hi, hg, hbk⟩ := hb
-        rcases List.mem_cons.mp hi with e | hi'
-        · subst e
-          obtain ⟨v, w2, hb2, hv, _⟩ := a5 hg
-          rw [hbk] at hb2
-          cases hb2
-          rw [hv]; exact upd_same _ _ _
-        · exact absurd ⟨w, (bindsEq u w).mpr ⟨i, hi', hg, hbk⟩⟩ hr
-    · -- contexts canceled
+        obtain ⟨i, hi, hg, hrs, hbk⟩ := hb
+        -- the head step restored u: either i is the head, or the head shares i's context
+        have hhead : (s.mms i0).hasGuard = true ∧ (s.mms i0).ctx = (s.mms i).ctx := by
+          rcases List.mem_cons.mp hi with e | hi'
+          · subst e; exact ⟨hg, rfl⟩
+          · -- i ∈ r does not bind in s1, so its context got restored by the head step
+            have hnot : (s1.ctxs (s.mms i).ctx).restored = true := by
+              cases hq : (s1.ctxs (s.mms i).ctx).restored with
+              | true => rfl
+              | false =>
+                exact absurd ⟨w, i, hi', by rw [(a2 i).2]; exact hg, by rw [(a2 i).1]; exact hq,
+                  by rw [(a2 i).1, a1]; exact hbk⟩ hr
+            rw [aR, hrs] at hnot
+            simp only [Bool.false_or, Bool.and_eq_true, decide_eq_true_eq] at hnot
+            exact ⟨hnot.2, hnot.1.symm⟩
+        obtain ⟨hg0, hc0⟩ := hhead
+        obtain ⟨v, w2, hb2, hv⟩ := a6 hg0 (by rw [hc0]; exact hrs)
+        rw [hc0, hbk] at hb2
+        cases hb2
+        rw [hv]; exact upd_same _ _ _
+    · -- contexts canceled and restored
       intro i hi hg
       rcases List.mem_cons.mp hi with e | hi'
       · subst e
-        obtain ⟨_, _, _, _, hc⟩ := a5 hg
-        exact b3 _ hc
+        refine ⟨b3 _ (a5 hg), bR _ ?_⟩
+        rw [aR]; simp [hg]
       · have := b6 i hi' (by rw [(a2 i).2]; exact hg)
         rw [(a2 i).1] at this
         exact this
